@@ -24,7 +24,8 @@ RULE = ("Hypothesis draws a conversion program over an opaque wrapper class W (a
         "sources S_i come from a pool (int, str, List[int], Dict[str, int], Tuple[int, str], Optional[int], constrained int, a "
         "dataclass, a second converted class W2 for chains), some wrapped in catch_value_error and failing on part of their domain; "
         "one serializer g: W -> U (optionally inherited=False); a placement in {registered, dynamic conversion=, field metadata, "
-        "default_conversion=}; a nesting in {bare, List, Dict values, Optional, Tuple, Union with bool, field of a nested object, Deque (std registered conversion "
+        "default_conversion=}; optionally constraints given from outside the converted type (per-call schema= or field schema: they "
+        "constrain the source data, in deserialize as in the schema); a nesting in {bare, List, Dict values, Optional, Tuple, Union with bool, field of a nested object, Deque (std registered conversion "
         "from / to list) and a user generic Collection with registered conversions from / to List}; and "
         "5-9 data (valid data of each source, mutants, atoms).  Oracle = commuting squares evaluated with apischema itself: "
         "deserialize(nest[W], d) accepts iff the element-wise composition 'first S_i accepting d, then f_i' accepts, with equal value "
@@ -76,6 +77,9 @@ def strategy_(draw, tier):
         "inherited": pick(draw, [None, None, True, False]),
         "chain": chance(draw, 0.2),
     }
+    if prog["nest"] == "bare" and prog["placement"] in ("registered", "dynamic", "field") and chance(draw, 0.35):
+        # constraints given from outside the converted type (per-call schema= / field schema): they constrain the source data
+        prog["outer"] = pick(draw, [{"min": 1}, {"max": 2}, {"max_len": 1}, {"min_items": 2}, {"min": 0, "max_len": 3}])
     data = []
     for _ in range(draw(st.integers(5, 9))):
         r = draw(st.integers(0, 99))
@@ -232,7 +236,8 @@ def render(p) -> str:
         lines += [f"deserializer({c})" for c in convs] + ["serializer(G)"]
     nest_t = {"bare": "W", "list": "List[W]", "map": "Dict[str, W]", "opt": "Optional[W]", "tuple": "Tuple[W, int]", "union": "Union[W, bool]", "field": "W", "deque": "Deque[W]", "bag": "Bag[W]"}[p["nest"]]
     if p["placement"] == "field":
-        lines += ["@dataclass", "class Holder:", f"    w: {nest_t} = field(metadata=conversion(deserialization=DESER, serialization=G))", "    other: int = 0", "ROOT = Holder"]
+        outer_md = (" | schema(" + ", ".join(f"{k}={v!r}" for k, v in p["outer"].items()) + ")") if p.get("outer") else ""
+        lines += ["@dataclass", "class Holder:", f"    w: {nest_t} = field(metadata=conversion(deserialization=DESER, serialization=G){outer_md})", "    other: int = 0", "ROOT = Holder"]
     elif p["nest"] == "field":
         lines += ["@dataclass", "class Holder:", "    w: W", "    other: int = 0", "ROOT = Holder"]
     else:
@@ -281,6 +286,12 @@ def _evaluate(case, ctx, b, src):
         dkw["default_conversion"] = lambda tp: mod.DESER if tp is W else default_deserialization(tp)
         skw["default_conversion"] = lambda tp: mod.G if tp is W else default_serialization(tp)
     root = mod.ROOT
+    outer = p.get("outer")
+    schema_kw = {}
+    if outer and placement != "field":
+        from apischema import schema as _schema
+        schema_kw["schema"] = _schema(**outer)
+        dkw["schema"] = schema_kw["schema"]
     src_types = []
     for i, s in enumerate(p["sources"]):
         src_types.append(mod.W2 if (p["chain"] and i == 0) else eval(build.texpr(SOURCES[s], PROG_BASE), mod.__dict__))
@@ -289,6 +300,12 @@ def _evaluate(case, ctx, b, src):
 
     def conv_one(d):
         """first source accepting d, then its converter (ValueError of a catching converter = rejection)"""
+        if outer:
+            try:
+                if M.check_constraints(outer, d):
+                    raise Reject
+            except M.Unspecified:
+                raise Reject
         for tp, f, catch in zip(src_types, fs, p["catch"]):
             try:
                 v = deserialize(tp, copy.deepcopy(d))
@@ -346,6 +363,8 @@ def _evaluate(case, ctx, b, src):
 
     composed = len(p["sources"]) >= 2 or p["chain"] or nest != "bare" or placement == "field"
     node = {"placement": placement, "nest": nest}
+    if outer:
+        node["outer_constraints"] = True
     for d in case["data"]:
         ctx.count()
         if placement == "field" or nest == "field":
@@ -392,7 +411,7 @@ def _evaluate(case, ctx, b, src):
         if placement in ("registered", "field", "dynamic") and not dynamic_into_field and not jsoracle.has_int_valued_float(datum):
             try:
                 skw2 = {"conversion": mod.DESER} if placement == "dynamic" else {}
-                sch = json.loads(json.dumps(deserialization_schema(root, **skw2)))
+                sch = json.loads(json.dumps(deserialization_schema(root, **skw2, **schema_kw)))
                 valid = jsoracle.validator(sch).is_valid(datum)
                 if valid != (got[0] == "ok") and not (got[0] == "err" and _only_value_error(got[1])) and got[0] != "ValueError":
                     ctx.violation({"side": "schema", "kind": "schema_disagrees", "schema_valid": valid, **node}, single,
